@@ -705,7 +705,7 @@ def check_conc(prop, tier, seed, repo, keep):
         repeats = 1 if tier == 'quick' else 3
         for k in range(repeats):
             reps += w.run_engine(bins['race'], 'conc', shards=4, timeout=3000,
-                                 env={'GOMAXPROCS': '8', 'GORACE': 'halt_on_error=0 log_path=%s history_size=2' % logbase})
+                                 env={'GOMAXPROCS': '8', 'GORACE': 'halt_on_error=0 exitcode=0 log_path=%s history_size=2' % logbase})
         merged = merge_reports(reps, prop)
         blocks = parse_race_logs(logbase + '.*')
         sigs = {}
